@@ -106,7 +106,7 @@ pub fn j_f64(ts: TimeScale, c: i128, secs: i64, out: &mut Local) {
     }
     let e = Epoch::from_duration(mk(c), ts);
     let x = secs as f64;
-    assert!(x as i64 == secs && (x * 1e9) as i128 == secs as i128 * NS_S, "harness: float seconds not exact");
+    assert!(x as i64 == secs && x.fract() == 0.0, "harness: the float is not that exact integer");
     let r = guard(|| e + x);
     match r {
         Ok(g) if g.time_scale == ts && alpha(g.duration) == t => {
@@ -115,7 +115,10 @@ pub fn j_f64(ts: TimeScale, c: i128, secs: i64, out: &mut Local) {
                 out.sample("c04.add_f64", args, format!("-> {}", describe(t)), true);
             }
         }
-        Ok(g) => out.viol("c04.add_f64", format!("wrong,diff={}", diffclass(alpha(g.duration), t)), args, describe(t), format!("{} {}", scale_name(g.time_scale), describe(alpha(g.duration)))),
+        Ok(g) => {
+            let inexact_product = (x * 1e9) as i128 != secs as i128 * NS_S;
+            out.viol("c04.add_f64", format!("wrong,diff={}{}", diffclass(alpha(g.duration), t), if inexact_product { ",integer-whose-product-with-1e9-is-inexact-in-f64" } else { "" }), args, describe(t), format!("{} {}", scale_name(g.time_scale), describe(alpha(g.duration))))
+        }
         Err(p) => out.viol("c04.add_f64", format!("panic:{}", p.class()), args, "no panic".into(), format!("{} {}", p.loc, p.msg)),
     }
 }
@@ -242,13 +245,14 @@ pub fn run(rep: &mut Report) {
         }
         sweep(rep, &format!("c04.ident[{}]", scale_name(ts)), ne * nd, |i, out| j_ident(ts, el[(i / nd) as usize], ds[(i % nd) as usize], out));
         sweep(rep, &format!("c04.unit[{}]", scale_name(ts)), ne * 36, |i, out| j_unit((i % 4) as usize, ts, el[(i / 36) as usize], UNITS[((i / 4) % 9) as usize], out));
-        // integer seconds of every magnitude, including beyond the i64 nanosecond range (~292 years) where Unit * f64
-        // takes its slow path; only values whose product with 1e9 is exact in f64 (the statement's "exact integer")
+        // integer seconds of every magnitude whose f64 is that exact integer (the statement's "float seconds that are an
+        // exact integer"): also those whose product with 1e9 is NOT exact in f64 (from 4 611 686 019 s, ~146 years),
+        // and beyond the i64 nanosecond range (~292 years) where Unit * f64 takes its slow path
         let mut secs: Vec<i64> = vec![0, 1, -1, 59, -60, 86_400, -86_400, 3_155_760_000, -3_155_760_000, 4_000_000_000, -4_000_000_000, 1 << 31, 37];
-        for m in [1i64 << 33, 1 << 34, 1 << 36, 1 << 40, 10_000_000_000, 100_000_000_000, 10_000_000_000_000, 9_223_372_036, 9_223_372_037, (1 << 34) + (1 << 10), 3 * (1 << 38)] {
+        for m in [1i64 << 33, 1 << 34, 1 << 36, 1 << 40, 10_000_000_000, 100_000_000_000, 10_000_000_000_000, 9_223_372_036, 9_223_372_037, (1 << 34) + (1 << 10), 3 * (1 << 38), 4_611_686_018, 4_611_686_019, (1 << 33) + 1, 10_000_000_001, 100_000_000_000_001, 31_557_600_000_007] {
             for sg in [1i64, -1] {
                 let v = sg * m;
-                if ((v as f64) * 1e9) as i128 == v as i128 * NS_S && (v as f64) as i64 == v {
+                if (v as f64) as i64 == v {
                     secs.push(v);
                 }
             }
